@@ -101,7 +101,7 @@ impl ScriptedReader {
             if short { n = 1.max(n / 2); }
         }
         buf[..n].copy_from_slice(&self.data[self.pos as usize..self.pos as usize + n]);
-        c.log.push(json!({"op":"read","at":self.pos,"want":want,"got":n}));
+        c.log.push(json!({"op":"read","at":self.pos.min(i32::MAX as u64),"want":want.min(i32::MAX as usize),"got":n}));
         self.pos += n as u64;
         Ok(n)
     }
@@ -134,7 +134,7 @@ impl ScriptedReader {
             return Err(Error::new(ErrorKind::InvalidInput, "negative seek"));
         }
         self.pos = np as u64;
-        c.log.push(json!({"op":"seek","to":self.pos}));
+        c.log.push(json!({"op":"seek","to":self.pos.min(i32::MAX as u64)}));      // keep logged numbers inside 31 bits
         Ok(self.pos)
     }
 }
